@@ -158,9 +158,13 @@ fn apply_bsd0_patch(patch: &PatchFile, base_data: &[u8]) -> Result<Vec<u8>> {
     );
 
     // Calculate block positions
-    let ctrl_start = 32; // After bsdiff header
-    let data_start = ctrl_start + ctrl_block_size;
-    let extra_start = data_start + data_block_size;
+    let ctrl_start: usize = 32; // After bsdiff header
+    let data_start = ctrl_start
+        .checked_add(ctrl_block_size)
+        .ok_or_else(|| Error::invalid_format("BSD0 control block size overflows"))?;
+    let extra_start = data_start
+        .checked_add(data_block_size)
+        .ok_or_else(|| Error::invalid_format("BSD0 data block size overflows"))?;
 
     // Validate block sizes
     if extra_start > bsdiff_data.len() {
